@@ -1,6 +1,7 @@
 import CkbVerif.Driver.Util
 import CkbVerif.Model.Chain
 import CkbVerif.Model.ChainStatus
+import CkbVerif.Model.ChainSync
 
 /-!
 Line-protocol driver for C01 (and, with `crash` / `restart`, C08). Protocol (harness/n01/src/c01.rs):
@@ -21,6 +22,11 @@ Line-protocol driver for C01 (and, with `crash` / `restart`, C08). Protocol (har
                              (spaces written as |): the answer is the persisted state of the v that equals
                              it (and the model continues from it), else that of v = 0       -> state line
   scan <maxEpochLen> <order|->      the scan list only                                      -> ids
+  hdr <id>                   the sync layer's `insert_valid_header` (`Chain.xstep … (.headerValid id)`: written only
+                             when the block's status is UNKNOWN)                             -> state line
+  mark <id>                  the sync layer's `new_block_received` (`.markReceived id`: BLOCK_RECEIVED written only
+                             when the status is exactly HEADER_VALID)                        -> state line
+  Chain operations remove / overwrite these entries as `Chain.xstep` says (Model/ChainSync.lean); `st=` is `statusX`.
 
 state line: cb=<id>:<new|known|err|drop>,… tip=<id> td=<n> orph=<k> stored=<ids> ext=<id>:<td>,… ver=<ids> inv=<ids> st=<letters>
   st: the answer of `Shared::get_block_status` (Model/ChainStatus.lean `blockStatus`) for every declared id in
@@ -41,6 +47,9 @@ structure Decl where
 structure St where
   decls : List Decl := []
   st : Option State := none
+  /-- status-map entries BLOCK_RECEIVED / HeaderMap members written by the sync-layer operations -/
+  recv : List Nat := []
+  hdr : List Nat := []
 
 def look (ds : List Decl) (b : Nat) : Option Decl := ds.find? (·.id == b)
 
@@ -60,7 +69,7 @@ def verdictOrd : Verdict → Nat
 
 def showList (l : List String) : String := if l.isEmpty then "-" else ",".intercalate l
 
-def stateLine (ds : List Decl) (s : State) (o : Out) : String :=
+def stateLineX (ds : List Decl) (recv hdr : List Nat) (s : State) (o : Out) : String :=
   let ids := (ds.map (·.id)).mergeSort (fun a b => a ≤ b)
   let cbs := o.mergeSort (fun a b => a.1 < b.1 || (a.1 == b.1 && verdictOrd a.2 ≤ verdictOrd b.2))
   let cb := showList (cbs.map fun (i, v) => s!"{i}:{verdictStr v}")
@@ -68,8 +77,16 @@ def stateLine (ds : List Decl) (s : State) (o : Out) : String :=
   let ext := showList (ids.filterMap fun i => (s.td i).map fun t => s!"{i}:{t}")
   let ver := showList ((ids.filter fun i => s.ver i && (s.td i).isSome).map toString)
   let inv := showList ((ids.filter fun i => s.invalid i).map toString)
-  let st := String.join (ids.map fun i => (blockStatus s i).letter)
+  let x : XState := { st := s, recv := fun b => recv.contains b, hdr := fun b => hdr.contains b }
+  let st := String.join (ids.map fun i => (statusX x i).letter)
   s!"cb={cb} tip={s.tip} td={s.tipTd} orph={s.pool.length} stored={stored} ext={ext} ver={ver} inv={inv} st={st}"
+
+def stateLine (ds : List Decl) (s : State) (o : Out) : String := stateLineX ds [] [] s o
+
+/-- the chain code's writes to the two maps after the callbacks `o` (Model/ChainSync.lean `xstep`) -/
+def afterChain (d : St) (o : Out) : St :=
+  { d with recv := d.recv.filter (fun b => !(okIds o).contains b && !(errIds o).contains b),
+           hdr := d.hdr.filter (fun b => !(okIds o).contains b) }
 
 def getState (d : St) : State := match d.st with | some s => s | none => init (treeOf d.decls)
 
@@ -130,21 +147,23 @@ def step (d : St) (ts : List String) : St × String :=
     | some i, some h =>
       let T := treeOf d.decls
       let r := deliverQ T h (getState d) i
-      ({ d with st := some r.1 }, stateLine d.decls r.1 r.2)
+      let d' := afterChain { d with st := some r.1 } r.2
+      (d', stateLineX d.decls d'.recv d'.hdr r.1 r.2)
     | _, _ => (d, "bad-op")
   | ["burst", l] =>
     match parseNatList? l with
     | some l =>
       let T := treeOf d.decls
-      let s := l.foldl (fun s b => (deliverQ T [] s b).1) (getState d)
-      ({ d with st := some s }, s!"td={s.tipTd}")
+      let d' := l.foldl (fun (d : St) b => let r := deliverQ T [] (getState d) b; afterChain { d with st := some r.1 } r.2) d
+      let s := getState d'
+      ({ d' with st := some s }, s!"td={s.tipTd}")
     | none => (d, "bad-op")
   | ["crashdeliver", i, k] =>
     match parseNat? i, parseNat? k with
     | some i, some k =>
       let s := getState d
       match (microStates (treeOf d.decls) s i).find? (fun m => m.commits + 1 == s.commits + k) with
-      | some m => let c := crash m; ({ d with st := some c }, stateLine d.decls c [])
+      | some m => let c := crash m; ({ d with st := some c, recv := [], hdr := [] }, stateLine d.decls c [])
       | none => (d, "bad-op")
     | _, _ => (d, "bad-op")
   | ["expire"] =>
@@ -152,21 +171,23 @@ def step (d : St) (ts : List String) : St × String :=
     let s1 := expire (treeOf d.decls) s0
     let gone : Out := (s0.pool.filter fun c => !s1.pool.contains c).map fun c => (c, Verdict.dropped)
     let pool := showNatList (s1.pool.mergeSort (fun a b => a ≤ b))
-    ({ d with st := some s1 }, stateLine d.decls s1 gone ++ s!" pool={pool}")
+    let keep := fun (b : Nat) => !(s0.pool.contains b && !s1.pool.contains b)
+    let d' := { d with st := some s1, recv := d.recv.filter keep, hdr := d.hdr.filter keep }
+    (d', stateLineX d.decls d'.recv d'.hdr s1 gone ++ s!" pool={pool}")
   | ["commits"] => (d, s!"{(getState d).commits}")
   | ["crash"] =>
     let s := crash (getState d)
-    ({ d with st := some s }, stateLine d.decls s [])
+    ({ d with st := some s, recv := [], hdr := [] }, stateLine d.decls s [])
   | ["burststop", l, obs] =>
     match parseNatList? l with
     | some l =>
       let cands := burstStopCands (treeOf d.decls) (getState d) l
       let want := obs.replace "|" " "
       match cands.find? (fun c => stateLine d.decls c [] == want) with
-      | some c => ({ d with st := some c }, stateLine d.decls c [])
+      | some c => ({ d with st := some c, recv := [], hdr := [] }, stateLine d.decls c [])
       | none =>
         match cands with
-        | c :: _ => ({ d with st := some c }, stateLine d.decls c [])
+        | c :: _ => ({ d with st := some c, recv := [], hdr := [] }, stateLine d.decls c [])
         | [] => (d, "bad-op")
     | none => (d, "bad-op")
   | ["restart", m, o] =>
@@ -176,8 +197,26 @@ def step (d : St) (ts : List String) : St × String :=
       let r' := doRestartSerial (treeOf d.decls) m o (getState d)
       let line := stateLine d.decls r.1 []
       let line' := stateLine d.decls r'.1 []
-      ({ d with st := some r.1 }, if line == line' then line else s!"interleaving-dependent {line} / {line'}")
+      ({ d with st := some r.1, recv := [], hdr := [] }, if line == line' then line else s!"interleaving-dependent {line} / {line'}")
     | _, _ => (d, "bad-op")
+  | ["hdr", i] =>
+    match parseNat? i with
+    | some i =>
+      let s := getState d
+      let x : XState := { st := s, recv := fun b => d.recv.contains b, hdr := fun b => d.hdr.contains b }
+      let x' := xstep (treeOf d.decls) x (.headerValid i)
+      let d' := { d with st := some s, hdr := if x'.hdr i && !d.hdr.contains i then i :: d.hdr else d.hdr }
+      (d', stateLineX d.decls d'.recv d'.hdr s [])
+    | none => (d, "bad-op")
+  | ["mark", i] =>
+    match parseNat? i with
+    | some i =>
+      let s := getState d
+      let x : XState := { st := s, recv := fun b => d.recv.contains b, hdr := fun b => d.hdr.contains b }
+      let x' := xstep (treeOf d.decls) x (.markReceived i)
+      let d' := { d with st := some s, recv := if x'.recv i && !d.recv.contains i then i :: d.recv else d.recv }
+      (d', stateLineX d.decls d'.recv d'.hdr s [])
+    | none => (d, "bad-op")
   | ["scan", m, o] =>
     match parseNat? m, parseNatList? o with
     | some m, some o => (d, showNatList (scanList (treeOf d.decls) m o (crash (getState d))))
